@@ -42,6 +42,30 @@ def cases(spec, ctx):
             # a slice component whose coded length sits on a slice_size_scaler boundary (255k / 256k bytes, +-1)
             ctx.count("slice_length_boundary_cases")
             yield {"recipe": configs.codelen_recipe(ctx.rng, ctx.rng.choice(BOUNDARY_LENGTHS))}
+        if i % 100 == 31:
+            # more than a thousand slices, with a byte budget coprime to the slice count (the low-delay slice size
+            # ratio then has a four-digit denominator and every remainder occurs)
+            import math
+
+            r = configs.random_recipe(ctx.rng, {"lossless": "no", "fragments": "any", "max_dwt": 1})
+            for k in ("cw", "ch", "lo", "to"):
+                r.pop(k, None)
+            r["sx"], r["sy"] = ctx.rng.choice([(40, 26), (33, 32), (64, 17), (48, 22), (26, 41)])
+            r["d"], r["dh"], r["wih"] = 1, 0, r["wi"]
+            r["qm"] = None if configs.has_default_matrix(r["wi"], r["wih"], 1, 0) else configs.random_matrix(ctx.rng, 1, 0)
+            r["cdf"], r["pcm"], r["ss"] = 0, 0, 0
+            r["w"], r["h"] = 2 * r["sx"], 2 * r["sy"]
+            n = r["sx"] * r["sy"]
+            pb = ctx.rng.randrange(3 * n, 5 * n) if r["profile"] == 0 else ctx.rng.randrange(6 * n, 9 * n)
+            while math.gcd(pb, n) != 1:
+                pb += 1
+            r["pb"] = pb
+            if r["fsc"]:
+                r["fsc"] = ctx.rng.choice([1, 7, n])
+            r["pics"]["n"] = 1
+            r["pics"]["class"] = "noise"
+            ctx.count("many_slice_cases")
+            yield {"recipe": r}
         space = {}
         k = ctx.rng.random()
         if ctx.rng.random() < 0.3:
